@@ -26,7 +26,7 @@ Definition code_grid_modes : list (list (list N * N) * N * bool) := [([([80; 111
 
 Definition code_grid_switch : list (N * list N) := [(0, [83; 97; 109; 112; 108; 101; 79; 110; 84; 83; 97; 109; 112; 108; 101]); (1, [83; 97; 109; 112; 108; 101]); (2, [83; 97; 109; 112; 108; 101; 79; 110; 73; 110; 116; 101; 114; 118; 97; 108]); (3, [])].   (* SamplingStep: 0=SampleOnTSample 1=Sample 2=SampleOnInterval 3=- *)
 
-Definition code_graph_policy : list (list N * N) := [([111; 110; 95; 116; 95; 115; 97; 109; 112; 108; 101], 0); ([111; 110; 95; 105; 116; 101; 114; 97; 116; 105; 111; 110], 2); ([111; 110; 95; 105; 110; 116; 101; 114; 118; 97; 108], 1); ([110; 111; 95; 115; 97; 109; 112; 108; 105; 110; 103], 3)].   (* engine.cpp initialize_graph: sampling policy -> code *)
+Definition code_graph_policy : list (list N * N) := [([111; 110; 95; 116; 95; 115; 97; 109; 112; 108; 101], 0); ([111; 110; 95; 105; 116; 101; 114; 97; 116; 105; 111; 110], 1); ([111; 110; 95; 105; 110; 116; 101; 114; 118; 97; 108], 2); ([110; 111; 95; 115; 97; 109; 112; 108; 105; 110; 103], 3)].   (* engine.cpp initialize_graph: sampling policy -> code *)
 
 Definition code_graph_options : list (list N * list N) := [([103; 105; 108; 108; 101; 115; 112; 105; 101], [71; 105; 108; 108; 101; 115; 112; 105; 101; 71; 114; 97; 112; 104]); ([116; 97; 117; 108; 101; 97; 112], [84; 97; 117; 76; 101; 97; 112; 71; 114; 97; 112; 104]); ([101; 117; 108; 101; 114], [69; 117; 108; 101; 114; 71; 114; 97; 112; 104])].   (* option -> algorithm class: gillespie=GillespieGraph tauleap=TauLeapGraph euler=EulerGraph *)
 
